@@ -15,7 +15,7 @@ import dlib  # noqa: E402
 
 logging.disable(logging.CRITICAL)
 
-from traits.api import (Undefined, Instance, UUID, DelegatesTo, PrototypedFrom, Any, Dict, HasTraits, Int, List, Property, ReadOnly, Set, Str, TraitError,  # noqa: E402
+from traits.api import (on_trait_change, Undefined, Instance, UUID, DelegatesTo, PrototypedFrom, Any, Dict, HasTraits, Int, List, Property, ReadOnly, Set, Str, TraitError,  # noqa: E402
                         cached_property, observe, push_exception_handler, pop_exception_handler)
 from traits.trait_list_object import TraitListObject  # noqa: E402
 from traits.trait_dict_object import TraitDictObject  # noqa: E402
@@ -52,6 +52,11 @@ def trait_of(t, md):
 
 def make_class(case):
     ns = {}
+    if case.get("graph"):
+        # an "edited since loaded" flag and an edit counter, declared BEFORE the traits they watch, maintained by
+        # post_init=True handlers: restoring / copying state must not run them
+        ns["dirty"] = Int(0)
+        ns["edits"] = Int(0)
     for d in case["cls"]:
         md = {}
         if d["transient"]:
@@ -73,6 +78,16 @@ def make_class(case):
     if case.get("graph"):
         ns["inst"] = Instance(Child)
         ns["kids"] = List(Instance(Child))
+        ns["text"] = Str()
+        ns["words"] = List(Str)
+
+        def _text_edited(self, event):
+            self.dirty = 1
+
+        def _words_edited(self):
+            self.edits += 1
+        ns["_text_edited"] = observe("text", post_init=True)(_text_edited)
+        ns["_words_edited"] = on_trait_change("words[]", post_init=True)(_words_edited)
         ns["drows"] = DelegatesTo("inst", prefix="rows")      # write-through delegate onto a deep-copy container trait
         ns["pv"] = PrototypedFrom("inst", prefix="v")         # non-write-through delegate, never overridden
         ns["uid"] = UUID(can_init=True)                        # writable only until the object is initialised
@@ -260,6 +275,12 @@ def graph_probes(pool, o, c):
     out.append(["inst", 908, "deep",
                 c.inst.rows is o.inst.rows or any(a is b for a in c.inst.rows for b in o.inst.rows),
                 list(c.inst.rows) == list(o.inst.rows) == [[1, 2], [3], [4, 5]] and list(c.drows) == list(o.drows)])
+    # 910: state restored quietly: handlers declared post_init=True did not run while the state was put in place
+    # (the flag / counter they maintain read as on the original), and they work afterwards
+    quiet = (c.dirty, c.edits, c.text, list(c.words)) == (o.dirty, o.edits, o.text, list(o.words)) == (0, 0, "hello", ["a", "b"])
+    c.text = "changed"
+    c.words.append("c")
+    out.append(["inst", 910, "deep", False, quiet and (c.dirty, c.edits) == (1, 1) and (o.dirty, o.edits) == (0, 0)])
     # 901: the child's own container is live on the copy's child
     wi, wo = [], []
     hs = {}
@@ -313,7 +334,7 @@ def make_side_handlers(side, wi, wo):
 
 def run_case(case):
     K = make_class(case)
-    o = K(uid=uuid.UUID(int=77)) if case.get("graph") else K()
+    o = K(uid=uuid.UUID(int=77), text="hello", words=["a", "b"]) if case.get("graph") else K()
     pool = Pool(o)
     hist_out = []
     for h in case["ops"]:
